@@ -8,14 +8,14 @@
 #define CAP 4                     /* max entries of a stored sparse row/column (<= 8 = SVEC_LOOKUP_MAX) */
 #endif
 #ifndef DIM
-#define DIM 8                     /* max number of rows / columns of the solution vectors */
+#define DIM 6                     /* max number of rows / columns of the solution vectors */
 #endif
 #define INF SOPLEX_DEFAULT_INFINITY
 
 /* ghosts.  g_kc: an arbitrary column, g_kr: an arbitrary row (frame clauses are stated at them, hence hold
  * for all); v_*: the values found there before the call. */
 int g_kc, g_kr, g_kc2; double v_x, v_r, v_y, v_s; int v_cs, v_rs, v_cs2;
-int g_k2, v_rs2, g_a, g_b, g_exp; double v_s2, v_y2, v_x2, v_r2; int* gp_i3;
+int g_k2, v_rs2, v_rs3, g_a, g_b, g_c, g_d, g_e, g_exp; double v_s2, v_y2, v_x2, v_r2; int* gp_i3;
 int g_n, g_n2, g_may_throw, g_out, g_out2, g_cap, g_nC, g_nR, g_in, g_in2;
 double* gp_x; double* gp_y; double* gp_s; double* gp_r; int* gp_cst; int* gp_rst;
 int* gp_i1; int* gp_i2; double* gp_d1;
@@ -23,6 +23,7 @@ static void havoc_ghosts(void)
 {
    g_kc = nondet_int(); g_kr = nondet_int(); g_kc2 = nondet_int(); v_x = nondet_double(); v_r = nondet_double();
    v_y = nondet_double(); v_s = nondet_double(); v_cs = nondet_int(); v_rs = nondet_int(); v_cs2 = nondet_int();
+   v_rs3 = nondet_int(); g_c = nondet_int(); g_d = nondet_int(); g_e = nondet_int();
    g_k2 = nondet_int(); v_rs2 = nondet_int(); g_a = nondet_int(); g_b = nondet_int(); g_exp = nondet_int();
    v_s2 = nondet_double(); v_y2 = nondet_double(); v_x2 = nondet_double(); v_r2 = nondet_double();
    g_n = nondet_int(); g_n2 = nondet_int(); g_in = nondet_int(); g_in2 = nondet_int(); g_cap = nondet_int(); g_nC = nondet_int(); g_nR = nondet_int(); g_may_throw = nondet_int(); g_out = nondet_int(); g_out2 = nondet_int();
